@@ -41,7 +41,7 @@ pub fn run(ctx: &Ctx) -> Outcome {
          (f) clear and pop_layer leave get_transform() bitwise unchanged. Sources under T are decided by the C12/C13 oracles, strokes under T by the C04 region oracle (both draw random transforms). Non-trivial: the render changed at least one pixel and left one unchanged.",
     );
     let secs = if ctx.quick() { 25. } else { 600. };
-    run_cases(ctx, &mut out, SubSpec { name: "pretransformed_path_differential", cases: ctx.n(40_000, 3_000_000), exhaustive: false, max_secs: secs }, |i, want, st| {
+    run_cases(ctx, &mut out, SubSpec { name: "pretransformed_path_differential", cases: ctx.n(200_000, 3_000_000), exhaustive: false, max_secs: secs }, |i, want, st| {
         let mut rng = ctx.rng("pretransformed_path_differential", i);
         let w = rng.int(1, 20) as i32;
         let h = rng.int(1, 20) as i32;
@@ -118,7 +118,7 @@ pub fn run(ctx: &Ctx) -> Outcome {
         co
     });
 
-    run_cases(ctx, &mut out, SubSpec { name: "singular_transform_draws_nothing", cases: ctx.n(15_000, 1_000_000), exhaustive: false, max_secs: secs / 2. }, |i, want, st| {
+    run_cases(ctx, &mut out, SubSpec { name: "singular_transform_draws_nothing", cases: ctx.n(60_000, 1_000_000), exhaustive: false, max_secs: secs / 2. }, |i, want, st| {
         let mut rng = ctx.rng("singular_transform_draws_nothing", i);
         let w = rng.int(1, 16) as i32;
         let h = rng.int(1, 16) as i32;
@@ -157,7 +157,7 @@ pub fn run(ctx: &Ctx) -> Outcome {
         co
     });
 
-    run_cases(ctx, &mut out, SubSpec { name: "device_space_calls_ignore_transform", cases: ctx.n(20_000, 1_500_000), exhaustive: false, max_secs: secs / 2. }, |i, want, st| {
+    run_cases(ctx, &mut out, SubSpec { name: "device_space_calls_ignore_transform", cases: ctx.n(80_000, 1_500_000), exhaustive: false, max_secs: secs / 2. }, |i, want, st| {
         let mut rng = ctx.rng("device_space_calls_ignore_transform", i);
         let w = rng.int(1, 16) as i32;
         let h = rng.int(1, 16) as i32;
@@ -230,7 +230,7 @@ pub fn run(ctx: &Ctx) -> Outcome {
         co
     });
 
-    run_cases(ctx, &mut out, SubSpec { name: "clear_and_pop_layer_keep_transform", cases: ctx.n(10_000, 500_000), exhaustive: false, max_secs: secs / 3. }, |i, want, st| {
+    run_cases(ctx, &mut out, SubSpec { name: "clear_and_pop_layer_keep_transform", cases: ctx.n(30_000, 500_000), exhaustive: false, max_secs: secs / 3. }, |i, want, st| {
         let mut rng = ctx.rng("clear_and_pop_layer_keep_transform", i);
         let w = rng.int(0, 12) as i32;
         let h = rng.int(0, 12) as i32;
